@@ -1,4 +1,121 @@
 import Cpl.Model.Rules
+import Cpl.Lemmas.Totalistic
+
+/-!
+# C08 — Totalistic rule numbering
+
+`totalistic_rule(n, k, rule)` returns the base-`k` digit of the rule number with place value `k^s`,
+`s` the sum of the unmasked neighbourhood states. Property theorems only; the model
+(`Cpl.Model.Rules`) mirrors the Python (`np.base_repr(rule, k).zfill(w)` indexed at `n(k-1) - s`),
+the specification used here is plain arithmetic: `rule / k^s % k`.
+
+All statements hold for every neighbourhood size and every (unbounded) rule number.
+-/
+
 namespace Cpl.C08
-theorem placeholder : True := trivial
+open Py Cpl Cpl.Totalistic
+
+/-- **The result is the base-`k` digit with place value `k^s`.** For every base `2 ≤ k ≤ 36`, every
+    neighbourhood size, every sum `s` that cells in `0..k-1` can produce (`0 ≤ s ≤ size·(k-1)`) and every
+    rule number that fits in `size·(k-1)+1` base-`k` digits, the call succeeds and returns
+    `⌊rule / k^s⌋ mod k`. -/
+theorem totalistic_spec (size : Nat) (s : Int) (k rule : Nat) (hk2 : 2 ≤ k) (hk36 : k ≤ 36)
+    (hs0 : 0 ≤ s) (hs : s ≤ ((size * (k - 1) : Nat) : Int))
+    (hr : rule < k ^ (size * (k - 1) + 1)) :
+    totalisticRule size s k rule = .ok ((rule / k ^ s.toNat) % k) := by
+  obtain ⟨hL, hget⟩ := ruleString_ok k rule (size * (k - 1) + 1) hk2 (by omega) hr
+  unfold totalisticRule
+  rw [if_neg (by omega)]
+  simp only [hL, gt_iff_lt, Nat.lt_irrefl, if_false]
+  have e : ((size * (k - 1) : Nat) : Int) - s = ((size * (k - 1) - s.toNat : Nat) : Int) := by omega
+  rw [e, getIdx_nat _ _ (by rw [hL]; omega), hget _ (by rw [hL]; omega)]
+  have e2 : size * (k - 1) + 1 - 1 - (size * (k - 1) - s.toNat) = s.toNat := by omega
+  rw [e2]
+
+/-- **The result is always a state in `0..k-1`.** -/
+theorem totalistic_lt (size : Nat) (s : Int) (k rule : Nat) (hk2 : 2 ≤ k) (hk36 : k ≤ 36)
+    (hs0 : 0 ≤ s) (hs : s ≤ ((size * (k - 1) : Nat) : Int))
+    (hr : rule < k ^ (size * (k - 1) + 1)) :
+    ∃ v, totalisticRule size s k rule = .ok v ∧ v < k :=
+  ⟨_, totalistic_spec size s k rule hk2 hk36 hs0 hs hr, Nat.mod_lt _ (by omega)⟩
+
+/-- **The all-zero neighbourhood (sum 0) selects the least significant digit** `rule mod k`. -/
+theorem totalistic_zero_sum (size k rule : Nat) (hk2 : 2 ≤ k) (hk36 : k ≤ 36)
+    (hr : rule < k ^ (size * (k - 1) + 1)) :
+    totalisticRule size 0 k rule = .ok (rule % k) := by
+  rw [totalistic_spec size 0 k rule hk2 hk36 (by omega) (by omega) hr]
+  simp
+
+/-- **A rule number that needs more than `size·(k-1)+1` base-`k` digits is rejected** with
+    `ValueError`, whatever the neighbourhood sum. -/
+theorem totalistic_out_of_range (size : Nat) (s : Int) (k rule : Nat) (hk2 : 2 ≤ k) (hk36 : k ≤ 36)
+    (hr : k ^ (size * (k - 1) + 1) ≤ rule) :
+    totalisticRule size s k rule = .error .ValueError := by
+  have hlong := ruleString_long k rule (size * (k - 1) + 1) hk2 (by omega) hr
+  unfold totalisticRule
+  rw [if_neg (by omega)]
+  simp only [gt_iff_lt, hlong, if_true]
+
+/-- **A base outside `2..36` is rejected** with `ValueError` (`np.base_repr` supports no other base). -/
+theorem totalistic_bad_base (size : Nat) (s : Int) (k rule : Nat) (hk : k < 2 ∨ 36 < k) :
+    totalisticRule size s k rule = .error .ValueError := by
+  unfold totalisticRule
+  rw [if_pos hk]
+
+/-- **On a (possibly masked) neighbourhood** the function uses `size` = the number of cells *including*
+    masked ones and `s` = the sum of the *unmasked* cells only; and when every unmasked cell holds a
+    state in `0..k-1`, that sum lies in the range `0 ≤ s ≤ size·(k-1)` required by `totalistic_spec`. -/
+theorem totalistic_on_masked (n : Nbhd2 Int) (k rule : Nat) :
+    nbSize n = n.flatten.length ∧
+    nbSum n = (n.flatten.filterMap id).sum ∧
+    totalisticRuleOn n k rule
+      = totalisticRule n.flatten.length (n.flatten.filterMap id).sum k rule ∧
+    ((∀ x ∈ n.flatten.filterMap id, 0 ≤ x ∧ x < (k : Int)) →
+      0 ≤ nbSum n ∧ nbSum n ≤ ((nbSize n * (k - 1) : Nat) : Int)) := by
+  refine ⟨nbSize_eq n, nbSum_eq n, ?_, ?_⟩
+  · unfold totalisticRuleOn; rw [nbSize_eq, nbSum_eq]
+  · intro h
+    rw [nbSum_eq, nbSize_eq]
+    have hb := sum_bounds k _ h
+    refine ⟨hb.1, Int.le_trans hb.2 ?_⟩
+    have hle := filterMap_id_length_le n.flatten
+    exact Int.ofNat_le.mpr (Nat.mul_le_mul_right (k - 1) hle)
+
+/-- **End to end on a neighbourhood**: for `2 ≤ k ≤ 36`, unmasked contents over `0..k-1` and a rule
+    number in range, the result is the digit of `rule` with place value `k^s`, `s` the unmasked sum. -/
+theorem totalistic_on_spec (n : Nbhd2 Int) (k rule : Nat) (hk2 : 2 ≤ k) (hk36 : k ≤ 36)
+    (hcells : ∀ x ∈ n.flatten.filterMap id, 0 ≤ x ∧ x < (k : Int))
+    (hr : rule < k ^ (n.flatten.length * (k - 1) + 1)) :
+    totalisticRuleOn n k rule
+      = .ok ((rule / k ^ ((n.flatten.filterMap id).sum).toNat) % k) := by
+  obtain ⟨hsz, hsum, hon, hrange⟩ := totalistic_on_masked n k rule
+  have hb := hrange hcells
+  rw [hsz, hsum] at hb
+  rw [hon]
+  exact totalistic_spec _ _ k rule hk2 hk36 hb.1 hb.2 hr
+
+/-- **`TotalisticRule(k, rule)` gives the same answers** as the function, at every cell and step. -/
+theorem class_agrees (k rule : Nat) (n : Nbhd2 Int) (c : Nat × Nat) (t : Nat) :
+    totalisticRuleClass k rule n c t = totalisticRuleOn n k rule := rfl
+
+/-! ## Non-vacuity: NKS totalistic code 777 (k = 3, three cells), by evaluation against the model -/
+
+/-- Code 777 = 1001210₃: sums 0..6 select the digits from the least significant end. -/
+example : (List.map (fun s : Int => totalisticRule 3 s 3 777) [0, 1, 2, 3, 4, 5, 6])
+    = [.ok 0, .ok 1, .ok 2, .ok 1, .ok 0, .ok 0, .ok 1] := by decide
+/-- The hypotheses of `totalistic_spec` hold for this instance. -/
+example : (2 ≤ 3) ∧ (3 ≤ 36) ∧ (0 : Int) ≤ 4 ∧ (4 : Int) ≤ ((3 * (3 - 1) : Nat) : Int)
+    ∧ 777 < 3 ^ (3 * (3 - 1) + 1) := by decide
+/-- … and the specification value agrees: `777 / 3^4 % 3 = 0`, `777 / 3^2 % 3 = 2`. -/
+example : (777 / 3 ^ (4 : Int).toNat) % 3 = 0 ∧ (777 / 3 ^ (2 : Int).toNat) % 3 = 2 := by decide
+/-- A masked (von Neumann) neighbourhood: five of nine cells count towards the sum, all nine towards
+    the size. -/
+example : nbSize [[none, some 2, none], [some 1, some 0, some 2], [none, some 1, none]] = 9
+    ∧ nbSum [[none, some 2, none], [some 1, some 0, some 2], [none, some 1, none]] = 6 := by decide
+example : totalisticRuleOn [[some 1, some 2, some 0]] 3 777 = .ok 1 := by decide
+/-- Out of range: `3^7 = 2187` needs eight digits. -/
+example : totalisticRule 3 0 3 2187 = .error .ValueError := by decide
+example : totalisticRule 3 0 37 5 = .error .ValueError ∧ totalisticRule 3 0 1 0 = .error .ValueError := by
+  decide
+
 end Cpl.C08
